@@ -630,7 +630,92 @@ def run_one(rec: dict, workdir: Path) -> dict:
     except Undumpable as e:
         out["undumpable"] = f"object read back: {e}"
     out["oracle"] = property_failures(obj, back, kind)
+    if rec.get("cross") and "undumpable" not in out:
+        out["cross"] = cross_reads(path, [k for k in KINDS if k != kind])
     return out
+
+
+KINDS = ["emulsion", "track", "etc", "tracklist"]
+
+
+def cross_reads(path, kinds) -> list:
+    """what the readers of the OTHER collection types make of this file (ties `dec` on files it did not write)"""
+    res = []
+    for k in kinds:
+        try:
+            o = reader_of(k)(str(path))
+            res.append([k, "ok", dump_obj(o, k)])
+        except Undumpable:
+            continue
+        except Exception as e:  # noqa
+            res.append([k, exc_kind(e), None])
+    return res
+
+
+def crafted_cases(workdir: Path) -> list:
+    """hand-made files: class names / markers / layouts that to_file never produces"""
+    import h5py
+    from droplets.droplets import SphericalDroplet, DiffuseDroplet
+    from droplets.emulsions import Emulsion
+    from droplets.droplet_tracks import DropletTrack
+    sph = Emulsion([SphericalDroplet([1.0, 2.0], 3.0)]).data
+    dif = Emulsion([DiffuseDroplet([1.0, 2.0], 3.0, 0.5), DiffuseDroplet([0.0, 1.0], 2.0)]).data
+    trk = DropletTrack([SphericalDroplet([1.0], 3.0), SphericalDroplet([2.0], 1.0)], [0.5, 2]).data
+    specs = [
+        (None, "SphericalDroplet"), (sph, "Nope"), (sph, None), (dif, "SphericalDroplet"), (sph, "DiffuseDroplet"),
+        (sph, "PerturbedDroplet2D"), (dif, "PerturbedDroplet3D"), (trk, "SphericalDroplet"), (trk, "DiffuseDroplet"),
+        (sph, "None"), (trk, "None"), (dif, "DiffuseDroplet"),
+    ]
+    # rows that no constructor would accept (or only just): the checks of `construct` in the model
+    def rows(dim, width, amps, *recs):
+        dt = [("position", "<f8", (dim,)), ("radius", "<f8")]
+        dt += [("interface_width", "<f8")] if width else []
+        dt += [("amplitudes", "<f8", (amps,))] if amps else []
+        return np.array(list(recs), dtype=dt)
+    nxt = float(np.nextafter(1e-8, 1.0))
+    nnan = b2f(0xFFF8000000000000)
+    specs += [
+        (rows(1, False, 0, ([1.0], -1.0)), "SphericalDroplet"),
+        (rows(1, False, 0, ([1.0], 2.0), ([1.0], -np.inf)), "SphericalDroplet"),
+        (rows(1, False, 0, ([1.0], -0.0), ([np.nan], nnan)), "SphericalDroplet"),
+        (rows(2, True, 0, ([1.0, 2.0], 1.0, -0.5)), "DiffuseDroplet"),
+        (rows(2, True, 0, ([1.0, 2.0], np.nan, -0.0), ([1.0, 2.0], 1.0, nnan)), "DiffuseDroplet"),
+        (rows(3, True, 2, ([1e-8, -1e-8, 5.0], 1.0, 0.1, [0.1, 0.2])), "PerturbedDroplet3DAxisSym"),
+        (rows(3, True, 2, ([nxt, 0.0, 5.0], 1.0, 0.1, [0.1, 0.2])), "PerturbedDroplet3DAxisSym"),
+        (rows(3, True, 2, ([0.0, -1e-7, 5.0], 1.0, 0.1, [0.1, 0.2])), "PerturbedDroplet3DAxisSym"),
+        (rows(3, True, 2, ([0.0, np.nan, 5.0], 1.0, 0.1, [0.1, 0.2])), "PerturbedDroplet3DAxisSym"),
+        (rows(3, True, 2, ([1.0, 2.0, 5.0], 1.0, 0.1, [0.1, 0.2])), "PerturbedDroplet3D"),
+        (rows(3, True, 1, ([1.0, 2.0, 5.0], 1.0, 0.1, [0.1])), "PerturbedDroplet2D"),
+        (rows(2, True, 1, ([1.0, 2.0], 1.0, 0.1, [0.1])), "PerturbedDroplet3D"),
+        (rows(2, True, 1, ([1.0, 2.0], 1.0, 0.1, [0.1])), "PerturbedDroplet2D"),
+        (rows(2, True, 1, ([1.0, 2.0], 1.0, 0.1, [0.1])), "DiffuseDroplet"),
+    ]
+    out = []
+    path = workdir / "crafted.h5"
+    for data, cname in specs:
+        if path.exists():
+            path.unlink()
+        with h5py.File(path, "w") as fp:
+            ds = fp.create_dataset("x", shape=()) if data is None else fp.create_dataset("x", data=data)
+            if cname is not None:
+                ds.attrs["droplet_class"] = cname
+        f = dump_file(path)
+        for k, status, o in cross_reads(path, KINDS):
+            out.append((k, f, status, o))
+    path.unlink()
+    return out
+
+
+HEADER2 = HEADER + """
+Definition dec_by (k : Z) (f : file) : result obj :=
+  if k =? 0 then rmap OEm (dec_emulsion_file repo_fmt f)
+  else if k =? 1 then rmap OTr (dec_track_file repo_fmt f)
+  else if k =? 2 then rmap OEtc (dec_etc repo_fmt f)
+  else rmap OTl (dec_tracklist repo_fmt f).
+(* case = (reader, dumped file, what that reader returned) *)
+Definition agree2 (c : Z * file * result obj) : bool :=
+  let '(k, f, r) := c in result_eqb obj_eqb (dec_by k f) r.
+"""
 
 
 def is_bcast_class(rec: dict) -> bool:
@@ -768,6 +853,8 @@ def check(ctx: vlib.Ctx) -> int:
     try:
         n_cases = ctx.scale(480, 6000)
         recipes = corpus() + [gen_recipe(rng, i) for i in range(n_cases)]
+        for j, r in enumerate(recipes):
+            r["cross"] = j < ctx.scale(160, 1200)       # also read these files with the other three readers
         results = [run_one(r, workdir) for r in recipes]
 
         # ---- correspondence literals
@@ -820,6 +907,25 @@ def check(ctx: vlib.Ctx) -> int:
                                   f"{ex['recipe']['kind']}/{ex['recipe']['flavour']} to_file={ex.get('write')} "
                                   f"from_file={ex.get('read')}")
                 ctx.extra["disagreeing_recipes"] = [results[b]["recipe"] for b in bad_cases[:3]]
+
+        # ---- readers applied to files they did not write, and to hand-made files
+        if ok:
+            lits2 = []
+            for res in results:
+                for k, status, o in res.get("cross", []):
+                    r = f"(Ok {cq_obj(k, o)})" if status == "ok" else f"(@Err obj {cq_err(status)})"
+                    lits2.append(f"({KINDS.index(k)}, {cq_file(res['file'])}, {r})")
+                    ctx.count("cross_read", f"{k} reader on {res['recipe']['kind']} file: "
+                              + ("ok" if status == "ok" else status.split(":")[0]))
+            for k, f, status, o in crafted_cases(workdir):
+                r = f"(Ok {cq_obj(k, o)})" if status == "ok" else f"(@Err obj {cq_err(status)})"
+                lits2.append(f"({KINDS.index(k)}, {cq_file(f)}, {r})")
+                ctx.count("cross_read", f"{k} reader on crafted file: " + ("ok" if status == "ok" else status.split(":")[0]))
+            ctx.evaluations += len(lits2)
+            bad2 = vlib.run_cases(ctx, "readers", HEADER2, lits2, "agree2", shard=250)
+            if bad2:
+                ctx.broken.append(f"correspondence readers: model dec and from_file differ on {len(bad2)} of {len(lits2)} "
+                                  f"(reader, file) pairs, first: {lits2[bad2[0]][:300]}")
 
         # ---- property oracle on every generated object of the domain
         f15_seen = 0
